@@ -61,7 +61,7 @@ def run(ctx):
                 "by construction")
     ctx.exhaustive = True
     b = ctx.build("plain", "A")
-    st = common.pmap(work, [(b["lib"], b["src"], part) for part in ("elements", "nist", "nuclides", "crystals", "copies")])
+    st = common.pmap(work, [(b["lib"], b["src"], part) for part in ("elements", "nist", "nuclides", "crystals", "copies", "crystals-extended")])
     ctx.stats.merge(st)
     ctx.assumptions = ["macro name = entry name with , / ( ) dropped, other non-alphanumerics replaced by '_', upper-cased (verified 180/180 on this tree)",
                        "IUPAC symbol table embedded in the harness (lib/formulas.py) as independent reference for the element table"]
@@ -199,6 +199,58 @@ def work(item):
         for bad in [b"", b"si", b"Si ", b"Unobtainium", None]:
             p, err = L.call("Crystal_GetCrystal", bad, None)
             fact(st, (not p) and err is not None, "crystal:accepts-unknown", dict(name=bad), "NULL and error", err)
+        return st
+    if part == "crystals-extended":
+        # the crystal catalogue is the one database a program can extend: after additions (by AddCrystal and by single- and multi-crystal
+        # files; names sorting before, between and after the shipped ones) the name list, lookup by name and uniqueness must still hold for
+        # every entry, shipped or added.  Runs in this forked worker only.
+        import os
+        names0, n0, _ = cstr_list(L, "Crystal_GetCrystalsList", None)
+        si, _ = L.call("Crystal_GetCrystal", b"Si", None)
+        if not fact(st, bool(si) and names0, "crystal:get-error", dict(name="Si"), "entry", None):
+            return st
+        added = []
+        tmp = os.path.join(os.environ.get("VERIF_TMP") or "/var/tmp", "xrlv.c15.%d.dat" % os.getpid())
+
+        def consistent(step):
+            names, n, err = cstr_list(L, "Crystal_GetCrystalsList", None)
+            exp = sorted(set(names0) | set(added))
+            if not fact(st, names == exp and n == len(exp), "crystal-extended:list", dict(step=step), [x.decode() for x in exp][:6], [x.decode("latin-1") for x in (names or [])][:6]):
+                return False
+            for nm in names:
+                p, err = L.call("Crystal_GetCrystal", nm, None)
+                ok = fact(st, bool(p) and err is None and p.contents.name == nm, "crystal-extended:listed-but-not-found", dict(step=step, name=nm.decode("latin-1")), "entry", err)
+                if p:
+                    L.fn["Crystal_Free"](p)
+                if not ok:
+                    return False
+            return True
+        steps = [("add", b"0_before_all"), ("add", b"zz_after_all"), ("add", b"LiF_between"), ("file", [b"00_file_first"]), ("file", [b"Mica_file_mid"]),
+                 ("file", [b"zzz_file_last"]), ("file", [b"Be_pair_a", b"~pair_b"]), ("add", b"AlphaA"), ("add", b"0_before_all"), ("file", [b"Mica_file_mid"])]
+        for kind, what in steps:
+            if kind == "add":
+                c = si.contents
+                cs = xrl.CrystalStruct()        # an own struct with the cell and atoms of Si under the new name (the library copies it)
+                cs.name = what
+                cs.a, cs.b, cs.c, cs.alpha, cs.beta, cs.gamma, cs.volume, cs.n_atom, cs.atom = c.a, c.b, c.c, c.alpha, c.beta, c.gamma, c.volume, c.n_atom, c.atom
+                rv, err = L.call("Crystal_AddCrystal", ctypes.byref(cs), None)
+                dup = what in added
+                fact(st, (rv == 0 and err is not None) if dup else (rv == 1 and err is None), "crystal-extended:add", dict(name=what.decode(), duplicate=dup), "rejected" if dup else "accepted", dict(rv=rv, error=err))
+                if rv == 1 and not dup:
+                    added.append(what)
+            else:
+                with open(tmp, "w") as f:
+                    f.write("".join("#S 14 %s\n#UCELL 5 5 5 90 90 90\n#N 5\n#L Z F X Y Z\n14 1.0 0 0 0\n" % n.decode() for n in what) + "#EOF\n")
+                rv, err = L.call("Crystal_ReadFile", tmp.encode(), None)
+                os.unlink(tmp)
+                dup = any(n in added for n in what)
+                fact(st, (rv == 0 and err is not None) if dup else (rv == 1 and err is None), "crystal-extended:file", dict(names=[n.decode() for n in what], duplicate=dup), "rejected" if dup else "accepted", dict(rv=rv, error=err))
+                if rv == 1 and not dup:
+                    added.extend(what)
+            if not consistent("%s %s" % (kind, what)):
+                break
+        L.fn["Crystal_Free"](si)
+        st.sample("crystal-extended", dict(added=[a.decode() for a in added]), cap=1)
         return st
     if part == "copies":
         # lookups hand out independent deep copies: scribble over every field of a copy, free it, fetch again, compare with a pristine snapshot
